@@ -29,7 +29,12 @@ static void gzip_writer(void)
 									struct rh_gzip rh = { text, times[ti], xfs[xi], oss[oi], extra64k, exl[ei], names[ni], comments[ci], hcrc };
 									size_t need = rh_gzip_write(expect, &rh);
 									long aos[5] = { 0, (long)need - 1, (long)need, (long)need + 1, (long)need + 100 };
-									for (int ai = 0; ai < 5; ai++) {
+									/* buffer-capacity fields are reader-side: the writer must go by extra_len / the NUL terminator only.
+									 * bv: 0 capacities exact, 1 extra_buf_len = 0, 2 all capacities roomy (+9), 3 capacities huge */
+									for (int aib = 0; aib < 20; aib++) {
+										int ai = aib % 5, bv = aib / 5;
+										if (bv && (ti || xi || oi))
+											continue;
 										if (aos[ai] < 0)
 											continue;
 										size_t ao = aos[ai];
@@ -38,15 +43,16 @@ static void gzip_writer(void)
 										uint8_t *out = g_alloc(ao, G_END);
 										memset(out, 0x5A, ao);
 										uint32_t r = 12345;
-										snprintf(key, sizeof key, "isal_write_gzip_header text=%d time=%x xfl=%d os=%d extra=%d name=%d comment=%d hcrc=%d avail_out=need%+ld", text, times[ti],
-											 xfs[xi], oss[oi], exl[ei], ni, ci, hcrc, (long)ao - (long)need);
+										snprintf(key, sizeof key, "isal_write_gzip_header text=%d time=%x xfl=%d os=%d extra=%d name=%d comment=%d hcrc=%d capacities=%s avail_out=need%+ld", text, times[ti],
+											 xfs[xi], oss[oi], exl[ei], ni, ci, hcrc, bv == 0 ? "exact" : bv == 1 ? "extra_buf_len=0" : bv == 2 ? "roomy" : "huge", (long)ao - (long)need);
 										if (V_TRY()) {
 											isal_deflate_init(s);
 											isal_gzip_header_init(h);
 											h->text = text; h->time = times[ti]; h->xflags = xfs[xi]; h->os = oss[oi];
-											if (exl[ei] >= 0) { h->extra = extra64k; h->extra_len = exl[ei]; h->extra_buf_len = exl[ei]; }
-											if (names[ni]) { h->name = (char *)names[ni]; h->name_buf_len = strlen(names[ni]) + 1; }
-											if (comments[ci]) { h->comment = (char *)comments[ci]; h->comment_buf_len = strlen(comments[ci]) + 1; }
+											uint32_t grow = bv == 2 ? 9 : bv == 3 ? 40000 : 0;
+											if (exl[ei] >= 0) { h->extra = extra64k; h->extra_len = exl[ei]; h->extra_buf_len = bv == 1 ? 0 : bv == 3 ? 65535 : exl[ei] + grow; }
+											if (names[ni]) { h->name = (char *)names[ni]; h->name_buf_len = strlen(names[ni]) + 1 + grow; }
+											if (comments[ci]) { h->comment = (char *)comments[ci]; h->comment_buf_len = strlen(comments[ci]) + 1 + grow; }
 											h->hcrc = hcrc;
 											s->next_out = out; s->avail_out = ao; s->total_out = 7;
 											static struct isal_zstream before;
